@@ -50,6 +50,11 @@ THEOREMS = [
     "Exit.C07_signal_during_stop_after_last_look_hangs", "Exit.C07_signal_during_stop_exact",
     "Exit.C07_window_keeps_earlier_statements", "Exit.C07_F27_signal_after_last_look", "Exit.C07_neg_id_cleared_before_stop",
     "Obligations.exit_stop_sequence", "Obligations.C07_signal_during_stop_extracted",
+    # process-directed kill with several threads: outcome by the class of the receiving thread
+    "Exit.C07_kill_outcome_by_receiver", "Exit.C07_kill_whichever_logged_thread", "Exit.C07_kill_never_logged_thread",
+    "Exit.C07_kill_candidates",
+    # candidate repair of F27
+    "Exit.C07_stop_model_waits_for_ever", "Exit.C07_F27_repair_never_hangs", "Obligations.C07_signal_during_stop_extracted_flush",
 ]
 MODULES = ["QuillModel.Props.C07"]
 OBLIG = ["QuillModel.Obligations.Exit"]
@@ -168,6 +173,31 @@ def stop_window_cases(prefix, rng, full):
     return out
 
 
+def kill_cases(prefix, rng, full):
+    """process-directed kill(getpid(), SIG) with several threads: the masks leave the kernel's choice open (any), or leave
+    exactly the main thread, one logging thread, one thread that never logged, the backend thread (a sink unblocks the
+    signal there), or nobody (the signal stays pending and the program goes on). The oracle applies the property only
+    when the receiving thread (producer of the notice, recorded by a sink) has logged before."""
+    out = []
+    k = 0
+    cfgs = ["a2;n0;a3", "n0;a1", "a3;f2;n0"] if full else ["a2;n0;a3"]
+    for p in ([0, 2, 5] if full else [3]):
+        for th in cfgs:
+            n_idx = th.split(";").index("n0") + 1
+            a_idx = next(i + 1 for i, t in enumerate(th.split(";")) if t[0] == "a")
+            for s in SIGNALS:
+                for spec in ("any", "m", "t%d" % a_idx, "t%d" % n_idx, "b", "none"):
+                    if spec == "b" and s not in CRASH:
+                        continue          # exit() on the backend thread joins itself: outside the model
+                    for busy in (True, False):
+                        k += 1
+                        sc = ["H", "L%d" % p, "W"] + (["L200"] if busy and spec != "b" else ["F"])
+                        sc += ["ksig:%s:%s" % (s, spec)] + (["L2", "ret"] if spec == "none" else [])
+                        out.append(case_line("%s%d" % (prefix, k), sc, clock="tsc" if k % 2 else "sys", threads=th, limit=30,
+                                             wait=0 if k % 5 == 0 and spec != "none" else 1))
+    return out
+
+
 def thread_signal_cases(prefix, n_stmts, rng, full):
     """a handled signal raised on an extra logging thread, at every crash point of the main thread; and two threads
     raising different signals at about the same time (one enters first, the other parks)"""
@@ -277,11 +307,13 @@ def gen_cases(tier, seed, after_stop_limit):
         cases += crash_point_cases("p", 4, THREADS, rng, every_cfg=True)
         cases += thread_signal_cases("t", 4, rng, full=False)
         cases += stop_window_cases("w", rng, full=False)
+        cases += kill_cases("k", rng, full=False)
         cases += lifecycle_cases("l", 200, rng)
     else:
         cases += crash_point_cases("p", 8, THREADS, rng, every_cfg=True)
         cases += thread_signal_cases("t", 8, rng, full=True)
         cases += stop_window_cases("w", rng, full=True)
+        cases += kill_cases("k", rng, full=True)
         cases += lifecycle_cases("l", 4000, rng)
     return cases
 
@@ -407,7 +439,7 @@ def run(prop, tier):
     scratch = tempfile.mkdtemp(prefix="h4_exit_", dir="/tmp")
     state = dict(cases=0, traces=0, oracle=[], mismatches=[], aborts=[], classes={}, statuses={}, nontrivial=set(), samples=[],
                  done=[], stats=[], stmts=0, unspecified=0, two_entrants={}, flaky=[], not_rerun=[], f27=[], f27_cases=set(),
-                 f27_run=0, wait_off=0, inside_stop=0)
+                 f27_run=0, wait_off=0, inside_stop=0, kill={})
 
     def process(res):
         by_id, tr = {}, {}
@@ -426,6 +458,10 @@ def run(prop, tier):
                 if m:
                     who = "thread-first" if m.group(3) == m.group(1) else "main-first" if m.group(3) == m.group(2) else "no-notice"
                     state["two_entrants"][who] = state["two_entrants"].get(who, 0) + 1
+                m = re.search(r"ksig:[A-Z0-9]+:(\w+)\S* => .* who=(\S+)", ln)
+                if m:
+                    key = "masks=%s receiver=%s" % (re.sub(r"\d+", "", m.group(1)), "main" if m.group(2) == "0" else "extra-thread" if m.group(2).isdigit() else m.group(2))
+                    state["kill"][key] = state["kill"].get(key, 0) + 1
                 m = re.search(r"found=(\S+)", ln)
                 if m and m.group(1) != "-":
                     state["stmts"] += sum(int(x) for x in m.group(1).split(","))
@@ -584,6 +620,7 @@ def run(prop, tier):
             "cases_with_wait_for_queues_to_empty_before_exit_off": state["wait_off"],
             "cases_with_a_signal_inside_another_threads_stop_or_the_atexit_stop": state["inside_stop"],
             "cases_of_the_input_class_of_F27": state["f27_run"],
+            "process_directed_kill (masks set by the harness -> thread the handler ran on)": state["kill"],
             "wait_statuses": state["statuses"],
             "two_threads_raising_at_once (which entered first)": state["two_entrants"],
             "samples": state["samples"],
